@@ -865,3 +865,64 @@ Proof.
   exists (str "5/.5s"), 5, 1500000000. split; [vm_compute; reflexivity|].
   intros H. apply parse_rate_limit_exact in H. vm_compute in H. discriminate.
 Qed.
+
+(* ---------------------------------------------------------------- round trips of rates *)
+From SX Require Import Proofs.DurationProofs.
+
+Lemma denotes_count_render n : 0 <= n < 2 ^ 31 -> denotes_count (render_dec n) n.
+Proof.
+  intros Hn. exists [], (render_dec n). destruct (render_dec_spec n ltac:(lia)) as [_ [_ Hv]].
+  cbn [app]. rewrite render_dec_number by lia. repeat split; auto; lia.
+Qed.
+
+Lemma unit_no_slash u uv : In (u, uv) unit_table -> mem 47 u = false.
+Proof.
+  unfold unit_table. cbn [In]. intros H.
+  repeat (destruct H as [H|H]; [injection H as <- <-; reflexivity|]). destruct H.
+Qed.
+
+Lemma unit_head u uv : In (u, uv) unit_table -> exists c t, u = c :: t /\ is_digit c = false /\ (c =? 46) = false.
+Proof.
+  unfold unit_table. cbn [In]. intros H.
+  repeat (destruct H as [H|H]; [injection H as <- <-; eexists; eexists; split; [reflexivity|split; reflexivity]|]). destruct H.
+Qed.
+
+(* a count alone is per second *)
+Lemma rate_roundtrip_count n : 0 <= n < 2 ^ 31 -> parse_rate_limit (render_dec n) = Some (n, one_second).
+Proof.
+  intros Hn. apply parse_rate_limit_exact. exists (render_dec n). split; [apply denotes_count_render; exact Hn|]. left. auto.
+Qed.
+
+(* count/unit is per one unit, for each of the eight unit names *)
+Lemma rate_roundtrip_unit n u uv : 0 <= n < 2 ^ 31 -> In (u, uv) unit_table ->
+  parse_rate_limit (render_dec n ++ 47 :: u) = Some (n, uv).
+Proof.
+  intros Hn Hu. apply parse_rate_limit_exact. exists (render_dec n). split; [apply denotes_count_render; exact Hn|].
+  right. exists u. split; [reflexivity|]. split; [eapply unit_no_slash; exact Hu|].
+  destruct (unit_head u uv Hu) as [c [t [-> [Hc Hd]]]]. unfold rate_window. rewrite Hc, Hd. cbn [negb andb].
+  pose proof (parse_duration_single [49] (c :: t) uv Hu eq_refl) as P.
+  change (dec_val [49]) with 1 in P. rewrite Z.mul_1_l in P.
+  destruct (unit_table_facts _ _ Hu) as [_ [_ [_ Hr]]]. split; [apply P; unfold two63; lia|lia].
+Qed.
+
+(* count/<k><unit> is per k units: every rate whose window is a whole number of some unit *)
+Lemma rate_roundtrip_window n k u uv : 0 <= n < 2 ^ 31 -> In (u, uv) unit_table -> 0 <= k -> k * uv <= two63 - 1 ->
+  parse_rate_limit (render_dec n ++ 47 :: render_dec k ++ u) = Some (n, k * uv).
+Proof.
+  intros Hn Hu Hk Hb. apply parse_rate_limit_exact. exists (render_dec n). split; [apply denotes_count_render; exact Hn|].
+  right. exists (render_dec k ++ u). split; [reflexivity|].
+  destruct (render_dec_spec k Hk) as [Hne [Hd _]].
+  split; [rewrite mem_app, (all_digits_no 47 _ eq_refl Hd), (unit_no_slash u uv Hu); reflexivity|].
+  destruct (number_head (render_dec k) (render_dec_number k Hk)) as [c [t [E Hc]]].
+  unfold rate_window. rewrite E. cbn [app]. rewrite Hc. cbn [negb andb]. rewrite <- (app_comm_cons t u c), <- E.
+  split; [apply parse_duration_render; assumption|].
+  destruct (unit_table_facts _ _ Hu) as [_ [_ [_ Hr]]]. nia.
+Qed.
+
+(* every rate: any count below 2^31 per any window of 0 .. 2^63-1 nanoseconds *)
+Lemma rate_roundtrip_ns n d : 0 <= n < 2 ^ 31 -> 0 <= d <= two63 - 1 ->
+  parse_rate_limit (render_dec n ++ 47 :: render_dec d ++ [110; 115]) = Some (n, d).
+Proof.
+  intros Hn Hd. pose proof (rate_roundtrip_window n d [110; 115] 1 Hn ltac:(left; reflexivity) ltac:(lia) ltac:(lia)) as H.
+  rewrite Z.mul_1_r in H. exact H.
+Qed.
